@@ -349,6 +349,12 @@ Fixpoint qbracketedb (started:bool) (l:list op) : bool :=
       end
   end.
 
+(* the state (configuration, pending list) a history ends in *)
+Fixpoint sp_qfinal (pol:nat) (mc:machine) (st:qstate) (l:list op) : qstate :=
+  match l with [] => st | o :: t => sp_qfinal pol mc (snd (sp_qop pol mc o st)) t end.
+Fixpoint sp_qfinal_mp11 (pol:nat) (mc:machine) (st:qstate) (l:list op) : qstate :=
+  match l with [] => st | o :: t => sp_qfinal_mp11 pol mc (snd (sp_qop_mp11 pol mc o st)) t end.
+
 Definition qplain_op (o:op) : Prop :=
   match o with
   | OStart _ [] => True
